@@ -144,7 +144,7 @@ func loadSeeds() *seedSet {
 	return s
 }
 
-var allOps = []string{"Validate", "Create", "Write", "MarshalJSON", "SegmentFile:c", "SegmentFile:d", "FlattenBatches", "MergeFiles", "Reversal", "BatchCreate", "BatchValidate", "JSONRoundTrip"}
+var allOps = []string{"Validate", "Create", "Write", "MarshalJSON", "SegmentFile:c", "SegmentFile:d", "FlattenBatches", "MergeFiles", "Reversal", "BatchCreate", "BatchValidate", "JSONRoundTrip", "WithOffset:c", "WithOffset:s", "WithOffset:bad"}
 
 func randOpts(r *rng.R) int64 {
 	switch r.Intn(6) {
@@ -370,6 +370,22 @@ func genJSONLeaf(r *rng.R, s *seedSet) Case {
 		n = r.Range(2, 4)
 	}
 	data, note := mutateJSON(r, seed, n)
+	if r.Chance(1, 6) {
+		// give every batch of the document an "offset" object (FileFromJSON then balances it)
+		var doc map[string]any
+		if json.Unmarshal(data, &doc) == nil {
+			if bs, ok := doc["batches"].([]any); ok {
+				for _, b := range bs {
+					if m, ok := b.(map[string]any); ok {
+						m["offset"] = map[string]any{"routingNumber": "121042882", "accountNumber": "123456789", "accountType": rng.Pick(r, []string{"checking", "savings"}), "description": rng.Pick(r, []string{"OFFSET", "01", ""})}
+					}
+				}
+				if out, err := json.Marshal(doc); err == nil {
+					data, note = out, note+"+offset"
+				}
+			}
+		}
+	}
 	return Case{Kind: "json", Data: hx.Enc(string(data)), Opts: randOpts(r), Ops: randOps(r, 3), Note: note}
 }
 
